@@ -826,7 +826,7 @@ def scen_ntn(nops):
     def scen(ip, repo):
         N, Lb = Int('N'), Int('Lb')
         t0, dt_pt = Real('start_time'), Real('dt_pt')
-        ip.assume(z3.And(N >= 0, Lb >= 1, dt_pt > 0))
+        ip.assume(z3.And(N >= 0, Lb >= 0, dt_pt > 0))
         j = Int('jq')
         ip.assume(z3.ForAll([j], z3.And(TB(j) >= 0, TB(j) <= N)), 'ensures of _parse_times: steps within 0..N')
         for k in range(nops - 1):
